@@ -219,6 +219,9 @@ def unit_histories_stateful(ctx, kind, B, steps, examples, complex_):
         ops = _LAST.get("ops", [])
         ctx.fail("C16.h_streaming", cell, {"kind": "history", "metric": kind, "block_size": B, "ops": ops, "complex": complex_}, str(e)[:200], "compute() == reference counters after every step",
                  "stateful history (shrunk by Hypothesis) breaks the streaming invariant", CHK)
+    except hypothesis.errors.Flaky as e:
+        ctx.fail("C16.h_streaming", cell, {"kind": "history", "metric": kind, "block_size": B, "ops": _LAST.get("ops", []), "complex": complex_}, f"{type(e).__name__}: not reproducible",
+                 "identical histories give identical values", "the metric's value differs between identical runs of the same history", CHK)
     ctx.ev(counter["runs"] * steps // 2)
     for h in counter["nontrivial"]:
         ctx.nontrivial("sm", kind, B, h)
@@ -362,12 +365,69 @@ def check_case(ctx, cell, case):
         oneshot(ctx, case["metric"], case["block_size"], arr(case["x"]), arr(case["y"]), "replay")
 
 
+def check_evm(ctx, cell, case):
+    """ErrorVectorMagnitude (a file of this property) in its streaming form: the value accumulated over any split and order of the data equals
+    the value after ONE update with the concatenated data (reference: 100.sqrt(sum|y-x|^2 / sum|x|^2), resp. / count without normalisation),
+    an error-free batch anywhere in the history changes nothing but the reference power, and reset restores the initial state."""
+    import torch
+    from kaira.metrics.signal.evm import ErrorVectorMagnitude
+    normalize, cplx, sizes, order, seed = case["normalize"], case["complex"], case["sizes"], case["order"], case["seed"]
+    cell = cell or {"metric": "evm", "normalize": normalize, "form": "complex" if cplx else "real", "mode": "streaming"}
+    rng = np.random.RandomState(seed)
+    parts = []
+    for i, n in enumerate(sizes):
+        x = rng.randn(n) + (1j * rng.randn(n) if cplx else 0)
+        e = (rng.randn(n) + (1j * rng.randn(n) if cplx else 0)) * (0.0 if i in case.get("clean", []) else 0.2)
+        x = x.astype(np.complex64 if cplx else np.float32)
+        parts.append((x, (x + e).astype(x.dtype)))
+    seq = [parts[i] for i in order]
+
+    def ref(ps):
+        err = sum(float(np.sum(np.abs(y.astype(np.complex128) - x.astype(np.complex128)) ** 2)) for x, y in ps)
+        den = sum(float(np.sum(np.maximum(np.abs(x.astype(np.complex128)) ** 2, 1e-12))) for x, y in ps) if normalize else float(sum(x.size for x, _ in ps))
+        return 100.0 * np.sqrt(err / den) if den > 0 else 0.0
+    m = ErrorVectorMagnitude(normalize=normalize)
+
+    def stream(ps):
+        for x, y in ps:
+            m.update(torch.from_numpy(x), torch.from_numpy(y))
+        return float(m.compute())
+    ok, got = ctx.call(lambda: stream(seq), "C16.raises", cell, case, checker="c16:check_evm")
+    if not ok:
+        return
+    ctx.ev()
+    want = ref(seq)
+    ctx.check(abs(got - want) <= 1e-4 * max(want, 1e-6) + 1e-6, "C16.e_evm_streaming", cell, case, got, want, "accumulated EVM depends on how the data was split or ordered", "c16:check_evm")
+    m.reset()
+    xs, ys = np.concatenate([p[0] for p in parts]), np.concatenate([p[1] for p in parts])
+    ok, one = ctx.call(lambda: stream([(xs, ys)]), "C16.raises", cell, case, checker="c16:check_evm")
+    if ok:
+        ctx.check(abs(one - want) <= 1e-4 * max(want, 1e-6) + 1e-6, "C16.e_evm_streaming", cell, {**case, "after_reset": True}, one, want,
+                  "after reset, one update with the concatenated data gives another EVM than the split history", "c16:check_evm")
+    if len(sizes) >= 2 and case.get("clean"):
+        ctx.nontrivial("evm", normalize, cplx, str(sizes), str(order), str(case.get("clean")))
+    ctx.cls("evm_histories")
+
+
+def unit_evm(ctx, n):
+    strat = st.integers(1, 5).flatmap(lambda k: st.fixed_dictionaries({
+        "normalize": st.booleans(), "complex": st.booleans(), "sizes": st.lists(st.integers(1, 40), min_size=k, max_size=k),
+        "order": st.permutations(list(range(k))), "clean": st.lists(st.integers(0, k - 1), max_size=2, unique=True), "seed": st.integers(0, 10 ** 6)}))
+    for fixed in ({"normalize": True, "complex": True, "sizes": [8, 8, 8], "order": [0, 1, 2], "clean": [0], "seed": 1},
+                  {"normalize": True, "complex": False, "sizes": [5, 9], "order": [1, 0], "clean": [1], "seed": 2},
+                  {"normalize": False, "complex": True, "sizes": [4, 4, 4, 4], "order": [3, 2, 1, 0], "clean": [0, 1], "seed": 3}):
+        check_evm(ctx, None, fixed)
+    draw_cases(strat, n, ctx.seed * 59 + 3, lambda c: check_evm(ctx, None, {**c, "order": list(c["order"])}))
+    ctx.sample({"metric": "evm", "histories": n})
+
+
 def units(tier, seed):
     T = tier == "thorough"
     us = []
     for kind, B, cx in (("ber", None, False), ("ber", 0.0, False), ("ber", None, True), ("bler", None, False), ("bler", 4, False), ("bler", 2, True), ("ser", 8, False), ("fer", None, False)):
         us.append(Unit(f"hist_exh_{kind}_{B}_{'c' if cx else 'r'}", "c16:unit_histories_exhaustive", {"kind": kind, "B": B, "maxlen": 6 if T else 5, "complex_": cx}, 6 if T else 3))
         us.append(Unit(f"hist_sm_{kind}_{B}_{'c' if cx else 'r'}", "c16:unit_histories_stateful", {"kind": kind, "B": B, "steps": 200 if T else 50, "examples": 1000 if T else 60, "complex_": cx}, 5))
+    us.append(Unit("evm_streaming", "c16:unit_evm", {"n": 4000 if T else 200}, 2))
     us.append(Unit("oneshot", "c16:unit_oneshot", {"n_gen": 20000 if T else 500}, 5))
     us.append(Unit("partitions", "c16:unit_partitions", {"n_gen": 20000 if T else 500}, 3))
     return us
